@@ -31,6 +31,13 @@ func dumpRef(which string, max int) {
 			}
 		}
 		cmp = ref.Pep440Compare
+	case "maven":
+		for _, s := range gen.Uniq(dumpMavenCandidates()) {
+			if ref.MavenConventional(s) {
+				strs = append(strs, s)
+			}
+		}
+		cmp = ref.MavenCompare
 	case "semver":
 		for _, s := range gen.Uniq(dumpSemverCandidates()) {
 			if _, _, ok := ref.SemverParts(s); ok {
@@ -59,6 +66,7 @@ func dumpRef(which string, max int) {
 }
 
 var dumpPypiCandidates func() []string
+var dumpMavenCandidates func() []string
 
 func dumpSemverCandidates() []string {
 	ids := []string{"0", "1", "2", "10", "99999999999999999", "a", "alpha", "beta", "rc", "A", "a-b", "-5", "-", "x-", "0a", "00a", "x"}
